@@ -137,7 +137,7 @@ RECIPES = {
         "mc": {"quick": [("MC_Links", "MC_Links_q")], "thorough": [("MC_Links", "MC_Links_t", 12)]},
         "families": {"quick": [("links", 1500, 3), ("notes", 500, 1), ("sysvhash", 80, 2), ("gnuhash", 50, 1)],
                      "thorough": [("links", 12000, 10), ("notes", 4000, 2), ("sysvhash", 600, 4), ("gnuhash", 400, 4)]},
-        "reasons": ("value", "panic", "died"),
+        "reasons": ("steps", "panic", "died"),
         "rule": "A: every SysV table over 3 (thorough 4) symbols with buckets and chains as arbitrary functions into 0..n (all cycle "
                 "lengths, self-loops, out-of-range links) x present/absent names, replayed; "
                 "B: hash tables with field-aware corrupted buckets/chains; adversarial version-record chains (next in {0,1,size-1,size,2^31,2^32-1,to-end}, counts up to u64::MAX, aux "
